@@ -294,6 +294,77 @@ def run_round(hist, rd, rno, w, dest, tmpd, b):
         return None
 
 
+# ------------------------------------------------------------------ (a') byte fidelity and long backup series
+def gen_bytes_case(rnd):
+    enc = rnd.choice([None, None, 'utf-8', 'latin-1'])
+    pieces = ['line %d\n' % rnd.randrange(100), 'x\r\ny', 'a\rb', '\r\n', 'tail without newline', '\n\n', ' \t\n']
+    if enc:
+        pieces += ['caf\xe9\n', '\xfc\xdf']
+    text = ''.join(rnd.choice(pieces) for _ in range(rnd.randint(1, 5)))
+    pre = None
+    if rnd.random() < 0.75:
+        pre = rnd.choice([b'old\n', b'old\r\nsecond\r\n', b'no newline at the end', b'\xe9\xe8 latin-1 bytes\n', b''])
+    nback = rnd.choice([0, 0, 1, 2, 3, 9, 10, 11, 12, 13]) if pre is not None else 0
+    gap = rnd.randint(1, nback) if nback and rnd.random() < 0.3 else None
+    return {'name': rnd.choice(['g.top', 'out.pdb', 'molecule_0.itp']), 'mode': rnd.choice(['w', 'w', 'a', 'a', 'w+', 'a+']),
+            'newline': rnd.choice([None, None, '', '\n']), 'encoding': enc, 'text': text,
+            'pre': pre.decode('latin-1') if pre is not None else None, 'backups': nback, 'gap': gap}
+
+
+def check_bytes(case, b):
+    """One open - write - finalise: the destination holds exactly the bytes the handle was given (after the old bytes in append
+    mode), the old file is kept byte for byte under the FIRST free backup name, every other file is unchanged."""
+    work = tempfile.mkdtemp(prefix='c07b-')
+    dest, tmpd = os.path.join(work, 'dest'), os.path.join(work, 'tmp')
+    os.makedirs(dest)
+    os.makedirs(tmpd)
+    try:
+        name = case['name']
+        before = {}
+        if case['pre'] is not None:
+            before[name] = case['pre'].encode('latin-1')
+            for n in range(1, case['backups'] + 1):
+                if n != case['gap']:
+                    before['#%s.%d#' % (name, n)] = ('backup %d\n' % n).encode()
+        for k, v in before.items():
+            with open(os.path.join(dest, k), 'wb') as f:
+                f.write(v)
+        w = fresh_writer(tmpd)
+        kw = {}
+        if case['newline'] is not None:
+            kw['newline'] = case['newline']
+        if case['encoding']:
+            kw['encoding'] = case['encoding']
+        h = w.open(os.path.join(dest, name), case['mode'], **kw)
+        h.write(case['text'])
+        h.close()
+        new = case['text'].encode(case['encoding'] or 'utf-8')     # no newline translation on this platform for any of the settings
+        if snapshot(dest) != before:
+            return ('deferral/destination-touched-before-finalisation', {'case': case})
+        w.write()
+        b.hits += 1
+        want = dict(before)
+        if 'a' in case['mode']:
+            want[name] = before.get(name, b'') + new
+        else:
+            if name in before:
+                n = 1
+                while '#%s.%d#' % (name, n) in before:
+                    n += 1
+                want['#%s.%d#' % (name, n)] = before[name]
+            want[name] = new
+        got = snapshot(dest)
+        if got != want:
+            diff = {k: [repr(got.get(k, '<absent>'))[:80], repr(want.get(k, '<absent>'))[:80]] for k in sorted(set(got) | set(want))
+                    if got.get(k) != want.get(k)}
+            key = 'finalise/bytes-appended' if 'a' in case['mode'] else \
+                ('finalise/backup-name' if any(k.startswith('#') for k in diff) else 'finalise/bytes-written')
+            return (key, {'observed_vs_expected': diff, 'mode': case['mode'], 'newline': case['newline'], 'encoding': case['encoding']})
+        return None
+    finally:
+        shutil.rmtree(work, ignore_errors=True)
+
+
 # ------------------------------------------------------------------ (b) crash enumeration
 def crash_enumeration(hist, b, tmp_root=None):
     """Enumerate every crash point of finalisation for this history. -> (problem | None, n_points)"""
@@ -602,6 +673,22 @@ def run_case(params):
                     'with_existing_backups': int(any(k.startswith('#') for k in hist['pre']))})
             if hist['pre'] and npend >= 2:
                 b.nontrivial(hist, hist)
+            # byte fidelity / long backup series, one small case per history
+            bc = gen_bytes_case(rnd)
+            b.total += 1
+            try:
+                p = check_bytes(bc, b)
+            except Exception as e:
+                if not harness.from_repo(e):
+                    raise
+                import traceback
+                p = ('finalise/exception/%s' % type(e).__name__, {'error': repr(e), 'trace': traceback.format_exc()[-600:], 'mode': bc['mode'],
+                                                                  'newline': bc['newline'], 'encoding': bc['encoding']})
+            if p:
+                b.violation(p[0], 'finalised bytes differ from what was written (%s)' % p[0], {'subcase': j, 'detail': p[1], 'case': bc})
+            else:
+                b.feat({'byte_cases': 1, 'byte_cases_ten_or_more_backups': int(bc['backups'] >= 10), 'byte_cases_carriage_returns': int('\r' in bc['text']),
+                        'byte_cases_explicit_encoding': int(bool(bc['encoding']))})
     elif kind == 'crash':
         rnd = harness.rng('C07c', params['seed'], params['batch'])
         for j in range(params['n']):
